@@ -186,8 +186,100 @@ func genTracerCase(r *Rng, em *Emitter, length int, al *tracerAlphabet) {
 		a    common.Address
 		s, o *uint256.Int
 		t    common.Hash
+		path [][]byte // name, then index keys: how the registration is reached from the account's root
 	}
 	var regs []reg
+	probe := 0
+	balShadow := map[string][]string{}
+	// harness-side bookkeeping of accepted registrations (computed from the history alone): per parent path,
+	// which name holds which (slot, offset, type) and which (slot, offset) is taken by which type
+	type childRec struct{ slot, off, typ string }
+	byName := map[string]childRec{}  // parentKey|name -> record
+	clsOf := map[string]string{}      // parentKey|name -> conflict class of that first registration
+	bySO := map[string]string{}       // parentKey|slot|off -> type
+	firstPath := map[string][][]byte{} // account|slot|0|type -> path of the first such registration (parent lookup)
+	offOf := func(o *uint256.Int) string {
+		if o == nil {
+			return "0"
+		}
+		return hexNatU(o)
+	}
+	pathKey := func(a common.Address, path [][]byte) string {
+		return hexAddr(a) + "/" + bytesList(path)
+	}
+	// afterReg emits the C11 specification probe for an accepted registration: a change journaled for the key just
+	// registered must be visible through BOTH lookups (name/index path and slot/offset/type).
+	fkCls := map[string]string{} // account|slot|off|type -> class of the first registration of that key
+	afterReg := func(g reg, parentKey string, parentFk string, name []byte) {
+		rec := childRec{hexNatU(g.s), offOf(g.o), hexHash(g.t)}
+		fk := hexAddr(g.a) + "|" + rec.slot + "|" + rec.off + "|" + rec.typ
+		cls := "clean"
+		if old, ok := byName[parentKey+"|"+string(name)]; ok {
+			if old == rec {
+				cls = clsOf[parentKey+"|"+string(name)] // a re-registration inherits the class of the original
+				if cls == "clean" {
+					cls = "re-registration"
+				}
+			} else {
+				cls = "same-name-other-key"
+			}
+		} else if oldT, ok := bySO[parentKey+"|"+rec.slot+"|"+rec.off]; ok && oldT != rec.typ {
+			cls = "shared-slot-offset-other-type"
+		} else if fp, ok := firstPath[fk]; ok && bytesList(fp) != bytesList(g.path) {
+			cls = "same-key-other-path"
+		}
+		if _, ok := byName[parentKey+"|"+string(name)]; !ok {
+			byName[parentKey+"|"+string(name)] = rec
+			clsOf[parentKey+"|"+string(name)] = cls
+		}
+		if _, ok := bySO[parentKey+"|"+rec.slot+"|"+rec.off]; !ok {
+			bySO[parentKey+"|"+rec.slot+"|"+rec.off] = rec.typ
+		}
+		if pc, ok := fkCls[parentFk]; ok && cls == "clean" && pc != "clean" && pc != "re-registration" {
+			cls = "under-conflicted-parent"
+		}
+		if _, ok := firstPath[fk]; !ok {
+			firstPath[fk] = g.path
+			fkCls[fk] = cls
+		}
+		if !r.Chance(60) {
+			return
+		}
+		probe++
+		v := []byte{0xee, byte(probe >> 8), byte(probe)}
+		err := it.t.SaveStateChange(g.a, g.s, g.o, g.t, v)
+		em.Op("C11,C10", fmt.Sprintf("T change %s %s %s %s %s", hexAddr(g.a), optU(g.s), optU(g.o), hexHash(g.t), hexBytes(v)), okErr(err))
+		has := func(c *vm.StorageChanges) bool {
+			if c == nil {
+				return false
+			}
+			for _, l := range c.Changes() {
+				for _, x := range l {
+					if bytes.Equal(x, v) {
+						return true
+					}
+				}
+			}
+			return false
+		}
+		sc := it.t.StateChanges()
+		viaPath := has(sc.Variable(g.a, string(g.path[0]), g.path[1:]...))
+		bySlot, _ := sc.Slot(g.a, g.s, g.o, g.t)
+		viaSlot := has(bySlot)
+		verdict := "both"
+		switch {
+		case err != nil:
+			verdict = "refused"
+		case viaPath && !viaSlot:
+			verdict = "path-only"
+		case !viaPath && viaSlot:
+			verdict = "slot-only"
+		case !viaPath && !viaSlot:
+			verdict = "neither"
+		}
+		em.Op("C11", "S both-see "+cls, verdict)
+		em.Count("probe:" + cls + ":" + verdict)
+	}
 
 	query := func(full bool) {
 		q := func(tags, op, impl string) { em.Op(tags, "Q "+op, impl) }
@@ -284,11 +376,13 @@ func genTracerCase(r *Rng, em *Emitter, length int, al *tracerAlphabet) {
 		case k < 22: // register top-level
 			a, s, o, t, n := acct(), slot(), off(), typ(), al.names[pick(len(al.names))]
 			err := it.t.SaveStateKey(a, nil, s, o, t, common.Hash{}, n)
-			if err == nil {
-				regs = append(regs, reg{a, s, o, t})
-			}
 			em.Op("C11", fmt.Sprintf("T key %s - %s %s %s 0 %s", hexAddr(a), optU(s), optU(o), hexHash(t), hexBytes(n)), okErr(err))
 			em.Count("regTop:" + okErr(err))
+			if err == nil {
+				g := reg{a, s, o, t, [][]byte{n}}
+				regs = append(regs, g)
+				afterReg(g, pathKey(a, nil), "", n)
+			}
 		case k < 44: // register nested
 			a, p, s, o, t, pt, n := acct(), slot(), slot(), off(), typ(), typ(), al.idxKeys[pick(len(al.idxKeys))]
 			if len(regs) > 0 && r.Chance(75) { // mostly-valid: a registered parent
@@ -296,11 +390,18 @@ func genTracerCase(r *Rng, em *Emitter, length int, al *tracerAlphabet) {
 				a, p, pt = g.a, g.s, g.t
 			}
 			err := it.t.SaveStateKey(a, p, s, o, t, pt, n)
-			if err == nil {
-				regs = append(regs, reg{a, s, o, t})
-			}
 			em.Op("C11", fmt.Sprintf("T key %s %s %s %s %s %s %s", hexAddr(a), optU(p), optU(s), optU(o), hexHash(t), hexHash(pt), hexBytes(n)), okErr(err))
 			em.Count("regNested:" + okErr(err))
+			if err == nil {
+				// the parent is the first registration of (account, parent slot, offset 0, parent type)
+				if pp, ok := firstPath[hexAddr(a)+"|"+hexNatU(p)+"|0|"+hexHash(pt)]; ok {
+					g := reg{a, s, o, t, append(append([][]byte{}, pp...), n)}
+					regs = append(regs, g)
+					afterReg(g, pathKey(a, pp), hexAddr(a)+"|"+hexNatU(p)+"|0|"+hexHash(pt), n)
+				} else {
+					em.Op("C11", "S parent-known", "accepted-under-unregistered-parent")
+				}
+			}
 		case k < 72: // journal a change
 			a, s, o, t, v := acct(), slot(), off(), typ(), al.vals[pick(len(al.vals))]
 			if len(regs) > 0 && r.Chance(75) {
@@ -351,6 +452,32 @@ func genTracerCase(r *Rng, em *Emitter, length int, al *tracerAlphabet) {
 			})
 			af, at := it.db.GetBalance(from), it.db.GetBalance(to)
 			em.Op("-", fmt.Sprintf("T transfer %s %s %s %s %s %s", hexAddr(from), hexAddr(to), hexNatBig(bf), hexNatBig(bt), hexNatBig(af), hexNatBig(at)), "ok")
+			// C13 specification (independent of the Lean model): the harness' own shadow of the balance journal, built
+			// from the balances it observed itself, with the append-unless-repeat rule
+			idx := it.t.CurrentCallIndex()
+			for _, ob := range []struct {
+				a common.Address
+				b *big.Int
+			}{{from, bf}, {to, bt}, {from, af}, {to, at}} {
+				k := fmt.Sprintf("%s/%d", hexAddr(ob.a), idx)
+				v := hexBytes(ob.b.Bytes())
+				if l := balShadow[k]; len(l) == 0 || l[len(l)-1] != v {
+					balShadow[k] = append(balShadow[k], v)
+				}
+			}
+			verdict := "match"
+			for _, a := range []common.Address{from, to} {
+				got := []string{}
+				if b := it.t.StateChanges().Balance(a); b != nil {
+					for _, x := range b.Changes()[idx] {
+						got = append(got, hexBytes(x))
+					}
+				}
+				if listStr(got) != listStr(balShadow[fmt.Sprintf("%s/%d", hexAddr(a), idx)]) {
+					verdict = "differs:" + hexAddr(a) + ":recorded=" + listStr(got) + ":observed=" + listStr(balShadow[fmt.Sprintf("%s/%d", hexAddr(a), idx)])
+				}
+			}
+			em.Op("C13", "S balshadow", verdict)
 			if from == to {
 				em.Count("transfer-self")
 			} else {
